@@ -82,6 +82,22 @@ impl Opts {
         })
     }
     pub fn apply(&self, b: &mut QRBuilder) {
+        // orders 24..=47: every setter present is first called with a DIFFERENT value (last value wins), then the
+        // real values follow in permutation (order - 24)
+        if self.order >= 24 {
+            if let Some(m) = self.mode {
+                b.mode(MODES[(m as usize + 1) % 3]);
+            }
+            if let Some(e) = self.ecl {
+                b.ecl(ECLS[(e as usize + 1) % 4]);
+            }
+            if let Some(v) = self.version {
+                b.version(VERSIONS[(v as usize + 6) % 40]);
+            }
+            if let Some(k) = self.mask {
+                b.mask(MASKS[(k as usize + 3) % 8]);
+            }
+        }
         for which in permutation(self.order) {
             match which {
                 0 => {
